@@ -276,7 +276,11 @@ ADDENDA = {
         'Lemmas/RegexHands.lean (handsRegexFacts: DEAL_PATTERN / HAND_PATTERN on every subject = takeHandField? / matchGroups).',
  'C18': ' The PBN parser is TRANSLATED on every run (Generated/PyCorePbn.lean), reads the export texts of this check exactly as the real parser does, '
         'and is PROVED equal to the reader model the round-trip theorems are about (Translated/PbnParser.lean, PbnParserClosed.lean; regular expressions '
-        'by Lemmas/RegexPbn.lean, pattern texts tied to the source by Props/Regex.lean) — see C17.',
+        'by Lemmas/RegexPbn.lean, pattern texts tied to the source by Props/Regex.lean) — see C17. Translated/PbnExport.lean composes the two ends: '
+        'pe_export_round_trip_translated — for every list of results (PbnResult.WF, PbnWF) the text the TRANSLATED PbnWriter writes (header + results) is read by '
+        'the TRANSLATED parse_all as one game per result with exactly the fifteen tags, in order; pe_export_as_settings_translated — and by the translated '
+        'parse_board_settings as the boards (id, dealer, vulnerability, deal). The line-length, non-emptiness and %-line conditions of the parser theorem are '
+        'DERIVED from written_lines_at_most_255 and the export layout, not assumed.',
  'C14': ' Since session 5 the two regular expressions of hands.py are no longer represented by differential-tested scanners only: '
         'Lemmas/RegexHands.lean proves, for EVERY subject string, that the generic regex engine on DEAL_PATTERN gives the fields of takeHandField? '
         '(the skeleton of convertPbn?) and on HAND_PATTERN (subjects without a line feed; kernel-checked counterexample with one) the groups of '
